@@ -79,10 +79,12 @@ class Analysis:
         def closure_of(o):
             for r in provenance(f, o, through=None, into_aggs=False):
                 if r[0] == "agg" and r[1].startswith("closure "):
-                    g = self.fns.get(r[1][len("closure "):])
+                    nm = r[1][len("closure "):]
+                    # closures of a helper that was inlined away keep their old name in the aggregate (alias)
+                    g = self.fns.get(nm) or self.prog.fn("stylua_lib", nm)
                     if g is not None:
                         for s_ in f.blocks[r[2]]["st"]:
-                            if s_["k"] == "assign" and s_["rv"]["k"] == "agg" and s_["rv"].get("closure") == g.path:
+                            if s_["k"] == "assign" and s_["rv"]["k"] == "agg" and s_["rv"].get("closure") in (g.path, nm):
                                 return g, s_["rv"]["ops"]
             return None, None
 
@@ -276,7 +278,23 @@ class Analysis:
                 labs = frozenset()
                 src = set()
                 h = self.local_fn(t)
-                if h is not None and h.kind != "Closure" and not RANGE_ONLY.search(h.path):
+                if h is not None and h.kind == "Closure" and len(args) == 2 and not is_const(args[1]):
+                    # a local closure called directly: (env, (a1, .., an)); its summary speaks of its own parameters
+                    # (2..) and captured values
+                    hs = self.summary(h)
+                    tup = None
+                    for bi2, si2, s2 in f.defs().get(op_place(args[1])["l"], []):
+                        if si2 != "term" and s2["rv"]["k"] == "agg" and "tuple" in s2["rv"]:
+                            tup = s2["rv"]["ops"]
+                    g2, cops = closure_of(args[0])
+                    for lb in hs.tret:
+                        if lb[0] == "p" and tup is not None and 0 <= lb[1] - 2 < len(tup):
+                            labs |= both(tup[lb[1] - 2])
+                        elif lb[0] == "u" and cops is not None and lb[1] < len(cops):
+                            labs |= both(cops[lb[1]])
+                    if labs:
+                        src.add("closure")
+                elif h is not None and h.kind != "Closure" and not RANGE_ONLY.search(h.path):
                     hs = self.summary(h)
                     for lb in hs.tret:
                         if lb[0] == "p" and lb[1] - 1 < len(args):
